@@ -137,7 +137,7 @@ func c16Run(fs *Facts) {
 	// (closed / destroyed), and the gateway's Delete goes on with the instance that is mapped then
 	if sw != nil {
 		res, where := Unknown, swampPath
-		if dt := sw.Func("swamp", "DeleteTreasure"); dt != nil {
+		if dt := ccDelegate(sw, sw.Func("swamp", "DeleteTreasure"), "swamp"); dt != nil {
 			where = swampPath + ":" + itoa(sw.Line(dt))
 			res = No
 			ast.Inspect(dt, func(x ast.Node) bool {
